@@ -52,7 +52,7 @@ def run_scratch(name, pids, tier='quick'):
             lines = [l for l in r.stdout.splitlines() if l.startswith('VIOLATION')]
             out[pid] = {'rc': r.returncode, 'lines': lines[:8], 'detected': any('no-failing-input-found' not in l or 'correspondence' in l for l in lines) and r.returncode == 1}
             print(name, pid, r.returncode, [l[:90] for l in lines[:2]], flush=True)
-            if r.returncode not in (0, 1): print(r.stdout[-2000:])
+            if r.returncode not in (0, 1) or (r.returncode == 1 and not lines): print(r.stdout[-3000:])
     finally:
         sh(f'git -C /repo worktree remove --force {wt}', '/')
         sh(f'rm -rf /var/tmp/seedev_{name}', '/')
